@@ -107,7 +107,7 @@ def gen_ops(rng, sess, usable, tier):
             mode = rng.choices(("serial", "pooled", "interrupt-serial", "interrupt-pooled"), (5, 4, 1, 1))[0]
             if i == n_ops - 1 and mode.startswith("interrupt"):
                 mode = "serial"
-            op = {"op": "calc", "cube": cube, "aggs": sub, "mode": mode}
+            op = {"op": "calc", "cube": cube, "aggs": sub, "mode": mode, "hooked": rng.random() < 0.3}
             if "pooled" in mode:
                 seed = rng.getrandbits(48)
                 op.update(poolsize=rng.choice((1, 2, 3, 4, 8)), sched_seed=seed,
@@ -314,6 +314,9 @@ class PuritySession:
         cube.check_interrupt = None
         cube.parallel = False
         inj = None
+        if op.get("hooked") and not mode.startswith("interrupt"):
+            cube.check_interrupt = Injector()  # a callback that never raises must not change anything
+            self.count("probe_call_with_a_callback_that_never_raises")
         if mode.startswith("interrupt"):
             at = [a % k for a in op["at"]]
             inj = Injector(at_counts=at if mode == "interrupt-serial" else (),
